@@ -745,6 +745,7 @@ analyze_function(CallGraphNode cg_node,
                  typename IntraCallSemAnalyzer::abs_tr_t &abs_tr,
                  unsigned iteration) {
   crab::ScopedCrabStats __st__(TimerInterAnalyzeFunc);
+  CRAB_VERIF_TICK("inter.analyze_function", iteration);
   using cfg_t = typename CallGraphNode::cfg_t;
   using abs_dom_t = typename IntraCallSemAnalyzer::abs_dom_t;
 
